@@ -16,7 +16,7 @@ Two hypotheses appear where they are needed and nowhere else:
   a key).  Without it the holder could simply send the quarantined coins away.
 * `holderNotNamed` (only for the equality): nobody sends coins to the holder directly.
 -/
-import PvProofs.Lemmas.QuarStep
+import PvProofs.Lemmas.QuarRelease
 
 namespace PvProofs.C07
 open PvModel PvModel.Quar PvProofs.QuarL
@@ -164,5 +164,294 @@ theorem supply_conserved (s : State) (ops : List Op) (inv : StoreInv s) (d : Den
     (fun _ _ => rfl) (fun a b c h1 h2 d => (h2 d).trans (h1 d)) (fun _ _ => True)
     (fun s s' op rel i _ he => ⟨(exec_ok i he).supply, (exec_ok i he).inv⟩) (fun _ _ _ _ _ _ => trivial)
     ops s inv (fun _ _ => trivial)).1 d
+
+/-! ### 3. who gets the coins of a send -/
+
+/-- **Delivery of every send.** For a successful `MsgSend`, `MsgMultiSend` or multi-input
+`InputOutputCoins`, every account's balance changes by exactly what the documentation says
+(`expDelta`: each transfer goes to the holder iff the recipient opted in and did not set the
+sender to auto-accept, evaluated before the message), the record total grows by exactly the
+quarantined amounts, each single-sender record `(to,[from])` grows by exactly the transfers
+quarantined for it, and no multi-sender record is touched. -/
+theorem send_delivery {s s' : State} {op : Op} {rel : Coins} (inv : StoreInv s)
+    (h : exec s op = .ok (s', rel)) (hop : op.xfers ≠ []) :
+    (∀ a d, Ledger.bal s'.bank a d = Ledger.bal s.bank a d + expDelta s op.xfers a d) ∧
+    (∀ d, outstanding s' d = outstanding s d + expQuarantined s op.xfers d) ∧
+    (∀ to f d, Coins.amountOf (coinsAt s' to [f]) d = Coins.amountOf (coinsAt s to [f]) d + expRecord s op.xfers to f d) ∧
+    (∀ k : Addr × Suffix, k.2.length ≠ 1 → kvGet s'.recs k = kvGet s.recs k) := by
+  have T := exec_transfer inv h hop
+  exact ⟨T.bal, T.out, T.single, T.multi⟩
+
+/-- **Not credited until accepted.** A send to a receiver that opted in, from a sender it has
+not set to auto-accept, credits the receiver nothing: the coins go to the holder and onto the
+record `(to,[from])`. -/
+theorem not_credited_until_accepted {s s' : State} {f t : Addr} {c rel : Coins} (inv : StoreInv s)
+    (hq : isQuarantinedAddr s t = true) (hna : getAutoResponse s t f ≠ .accept)
+    (hf : f ≠ s.holder) (ht : t ≠ s.holder)
+    (h : exec s (.send f t c) = .ok (s', rel)) :
+    (∀ d, Ledger.bal s'.bank t d = Ledger.bal s.bank t d) ∧
+    (∀ d, Ledger.bal s'.bank s.holder d = Ledger.bal s.bank s.holder d + Coins.amountOf c d) ∧
+    (∀ d, Coins.amountOf (coinsAt s' t [f]) d = Coins.amountOf (coinsAt s t [f]) d + Coins.amountOf c d) := by
+  obtain ⟨hb, _, hr, _⟩ := send_delivery inv h (by simp [Op.xfers])
+  have hqq : quarantines s f t = true := by simp [quarantines, hq, hna, hf]
+  have hft : f ≠ t := by
+    intro e; subst e; simp [getAutoResponse] at hna
+  refine ⟨fun d => ?_, fun d => ?_, fun d => ?_⟩
+  · rw [hb]; simp [Op.xfers, expDelta, destOf, hqq, hft, Ne.symm ht]
+  · rw [hb]; simp [Op.xfers, expDelta, destOf, hqq, hf]
+  · rw [hr]; simp [Op.xfers, expRecord, hqq]
+
+/-- The same for any of the three send operations and any number of inputs/outputs: an account
+that only receives, and only from senders that are quarantined for it, is credited nothing. -/
+theorem not_credited_by_any_transfer {s s' : State} {op : Op} {rel : Coins} (inv : StoreInv s)
+    (h : exec s op = .ok (s', rel)) (hop : op.xfers ≠ []) (a : Addr) (ha : a ≠ s.holder)
+    (hin : ∀ x ∈ op.xfers, x.from_ ≠ a) (hq : ∀ x ∈ op.xfers, x.to = a → quarantines s x.from_ a = true) :
+    ∀ d, Ledger.bal s'.bank a d = Ledger.bal s.bank a d := by
+  intro d
+  rw [(send_delivery inv h hop).1]
+  suffices hz : ∀ xs : List Xfer, (∀ x ∈ xs, x.from_ ≠ a) → (∀ x ∈ xs, x.to = a → quarantines s x.from_ a = true) →
+      expDelta s xs a d = 0 by rw [hz _ hin hq]; omega
+  intro xs
+  induction xs with
+  | nil => intro _ _; rfl
+  | cons x rest ih =>
+    intro h1 h2
+    have := ih (fun y hy => h1 y (List.mem_cons_of_mem _ hy)) (fun y hy => h2 y (List.mem_cons_of_mem _ hy))
+    have hx1 := h1 x (List.mem_cons_self ..)
+    have hx2 := h2 x (List.mem_cons_self ..)
+    have hd : destOf s x ≠ a := by
+      unfold destOf
+      by_cases hto : x.to = a
+      · have := hx2 hto
+        rw [← hto] at this
+        simp [this, Ne.symm ha]
+      · by_cases hqq : quarantines s x.from_ x.to = true
+        · simp [hqq, Ne.symm ha]
+        · have hqf : quarantines s x.from_ x.to = false := by simpa using hqq
+          simp [hqf, hto]
+    simp only [expDelta, this, hx1, hd, if_false]
+    omega
+
+/-- **Funds from an auto-accepted sender arrive directly** (also: receiver not opted in, or the
+holder / the receiver itself sending): the receiver is credited in full, nothing is recorded. -/
+theorem autoaccept_direct {s s' : State} {f t : Addr} {c rel : Coins} (inv : StoreInv s)
+    (hq : quarantines s f t = false) (hft : f ≠ t)
+    (h : exec s (.send f t c) = .ok (s', rel)) :
+    (∀ d, Ledger.bal s'.bank t d = Ledger.bal s.bank t d + Coins.amountOf c d) ∧
+    (∀ d, outstanding s' d = outstanding s d) ∧
+    (∀ to f' d, Coins.amountOf (coinsAt s' to [f']) d = Coins.amountOf (coinsAt s to [f']) d) := by
+  obtain ⟨hb, ho, hr, _⟩ := send_delivery inv h (by simp [Op.xfers])
+  refine ⟨fun d => ?_, fun d => ?_, fun to f' d => ?_⟩
+  · rw [hb]; simp [Op.xfers, expDelta, destOf, hq, hft]
+  · rw [ho]; simp [Op.xfers, expQuarantined, hq]
+  · rw [hr]; simp [Op.xfers, expRecord, hq]
+
+/-! ### 4. declining, opting in or out, changing auto-responses -/
+
+/-- **Decline / opt-in / opt-out / auto-response updates never move or lose funds**: every
+balance is unchanged and every record keeps exactly its coins (no record appears or vanishes). -/
+theorem settings_and_decline_move_nothing {s s' : State} {op : Op} {rel : Coins} (inv : StoreInv s)
+    (h : exec s op = .ok (s', rel)) (hop : op.movesNoFunds = true) :
+    s'.bank = s.bank ∧ ∀ k, (kvGet s'.recs k).map (·.coins) = (kvGet s.recs k).map (·.coins) := by
+  cases op with
+  | optIn a =>
+    simp only [exec, Except.ok.injEq, Prod.mk.injEq] at h
+    obtain ⟨rfl, _⟩ := h
+    exact ⟨rfl, fun _ => rfl⟩
+  | optOut a =>
+    simp only [exec, Except.ok.injEq, Prod.mk.injEq] at h
+    obtain ⟨rfl, _⟩ := h
+    exact ⟨rfl, fun _ => rfl⟩
+  | auto to ups =>
+    simp only [exec] at h
+    split at h
+    · cases h
+    · simp only [Except.ok.injEq, Prod.mk.injEq] at h
+      obtain ⟨rfl, _⟩ := h
+      have O := setAutoResponses_only to ups s
+      exact ⟨O.bank, fun k => by rw [O.recs]⟩
+  | decline to froms perm =>
+    simp only [exec, msgDecline] at h
+    cases hf : froms.isEmpty
+    · simp only [hf, Bool.false_eq_true, if_false, Except.map, Except.ok.injEq, Prod.mk.injEq] at h
+      obtain ⟨rfl, _⟩ := h
+      have D := declineQuarantinedFunds_ok inv to froms
+      split
+      · have O := setAutoResponses_only to (froms.map fun f => (f, AutoResp.decline)) (declineQuarantinedFunds s to froms)
+        exact ⟨O.bank.trans D.bank, fun k => by rw [O.recs]; exact D.coins k⟩
+      · exact ⟨D.bank, D.coins⟩
+    · simp [hf, Except.map] at h
+  | send f t c => simp [Op.movesNoFunds] at hop
+  | msend f outs => simp [Op.movesNoFunds] at hop
+  | iosend ins t => simp [Op.movesNoFunds] at hop
+  | accept to froms perm => simp [Op.movesNoFunds] at hop
+  | qadd to froms amt payer => simp [Op.movesNoFunds] at hop
+
+/-! ### 5. accept: paid exactly once, in full, when the last unaccepted sender is accepted -/
+
+/-- the snapshot-level facts of a successful accept -/
+theorem accept_facts {s s' : State} {to : Addr} {froms : List Addr} {perm : Bool} {rel : Coins} (inv : StoreInv s)
+    (h : exec s (.accept to froms perm) = .ok (s', rel)) :
+    ∃ s1, Accepted s s1 to froms (getQuarantineRecords s to froms) [] rel ∧ OnlySettings s1 s' := by
+  simp only [exec, msgAccept] at h
+  cases hf : froms.isEmpty
+  · simp only [hf, Bool.false_eq_true, if_false] at h
+    cases ha : acceptQuarantinedFunds s to froms with
+    | error e => simp [ha] at h
+    | ok p =>
+      obtain ⟨s1, rel1⟩ := p
+      simp only [ha, Except.ok.injEq, Prod.mk.injEq] at h
+      obtain ⟨rfl, rfl⟩ := h
+      refine ⟨s1, acceptLoop_ok to froms _ s s1 [] rel1 inv (getQuarantineRecords_snapshot inv to froms) ha, ?_⟩
+      split
+      · exact setAutoResponses_only to _ s1
+      · exact OnlySettings.refl s1
+  · simp [hf] at h
+
+/-- **Released in full, exactly the completed records.** A successful `accept to froms` pays
+`to`, out of the holder, exactly the coins of those records of `to` whose every still
+unaccepted sender is named in `froms` — that amount is also what the message reports as
+released — and changes no other balance. -/
+theorem accept_pays_completed_records {s s' : State} {to : Addr} {froms : List Addr} {perm : Bool} {rel : Coins}
+    (inv : StoreInv s) (h : exec s (.accept to froms perm) = .ok (s', rel)) :
+    (∀ d, Coins.amountOf rel d = expReleased s.recs to froms d) ∧
+    (∀ a d, Ledger.bal s'.bank a d = Ledger.bal s.bank a d
+        + (if to = a then expReleased s.recs to froms d else 0)
+        - (if s.holder = a then expReleased s.recs to froms d else 0)) ∧
+    (∀ d, outstanding s' d = outstanding s d - expReleased s.recs to froms d) := by
+  obtain ⟨s1, A, O⟩ := accept_facts inv h
+  have hsum := relSum_eq_expReleased inv to froms
+  refine ⟨fun d => ?_, fun a d => ?_, fun d => ?_⟩
+  · rw [A.rel, hsum]; simp
+  · rw [O.bank, A.bal, hsum]
+  · rw [O.outstanding, A.out, hsum]
+
+/-- **The fate of every record under an accept.** A record of `to` all of whose unaccepted
+senders are named is gone afterwards (so it cannot be paid again); every other record — of
+`to` or of anybody else — is still there with exactly the same coins, and no record appears. -/
+theorem accept_record_fate {s s' : State} {to : Addr} {froms : List Addr} {perm : Bool} {rel : Coins}
+    (inv : StoreInv s) (h : exec s (.accept to froms perm) = .ok (s', rel)) (k : Addr × Suffix) :
+    match kvGet s.recs k with
+    | none => kvGet s'.recs k = none
+    | some r =>
+      if k.1 = to ∧ completes froms r = true then kvGet s'.recs k = none
+      else (kvGet s'.recs k).map (·.coins) = some r.coins := by
+  obtain ⟨s1, A, O⟩ := accept_facts inv h
+  rw [O.recs]
+  -- is the key among the snapshot's keys?
+  by_cases hin : k ∈ (getQuarantineRecords s to froms).map (fun r => (to, keyOf r))
+  · obtain ⟨r, hr, rfl⟩ := List.mem_map.mp hin
+    have hst := (getQuarantineRecords_snapshot inv to froms).stored r hr
+    rw [hst]
+    have hnfa : r.isFullyAccepted = false := inv.nfa _ (mem_of_kvGet hst)
+    have he := A.each r hr
+    rw [releases_eq_completes froms hnfa] at he
+    by_cases hc : completes froms r = true
+    · simp only [hc, if_true] at he
+      simp [hc, he]
+    · simp only [hc] at he
+      obtain ⟨r', hg, hc', _⟩ := he
+      simp [hc, hg, hc']
+  · rw [A.other k hin]
+    cases hg : kvGet s.recs k with
+    | none => rfl
+    | some r =>
+      simp only
+      have hmem := mem_of_kvGet hg
+      split
+      · -- a completed record of `to` is always found through the index: contradiction
+        rename_i hc
+        obtain ⟨rfl, hc⟩ := hc
+        exfalso
+        apply hin
+        have hnfa : r.isFullyAccepted = false := inv.nfa _ hmem
+        cases hu : r.unacc with
+        | nil => simp [Record.isFullyAccepted, hu] at hnfa
+        | cons a rest =>
+          have ha : a ∈ r.unacc := by rw [hu]; exact List.mem_cons_self ..
+          have hfrom : a ∈ froms := by
+            have := List.all_eq_true.mp hc a ha
+            simpa using this
+          obtain ⟨t, k2⟩ := k
+          have hk := mem_suffixes inv hmem (show a ∈ r.getAllFromAddrs from List.mem_append_left _ ha) hfrom
+          have hkey : keyOf r = k2 := inv_key_of_get inv hg
+          refine List.mem_map.mpr ⟨r, ?_, by rw [hkey]⟩
+          unfold getQuarantineRecords
+          exact List.mem_filterMap.mpr ⟨k2, hk, hg⟩
+      · rfl
+
+/-! ### 6. the suffix index never loses a record -/
+
+/-- **Lookup by any sender finds every record containing that sender**: for every stored record
+of `to` and every one of its senders (accepted or not) named in `froms`, `GetQuarantineRecords`
+returns that record — single-sender records through their own key, multi-sender records
+through the suffix index. -/
+theorem index_complete {s : State} (inv : StoreInv s) {to : Addr} {k : Suffix} {r : Record}
+    (hmem : ((to, k), r) ∈ s.recs) {f : Addr} (hf : f ∈ r.getAllFromAddrs) {froms : List Addr} (hff : f ∈ froms) :
+    r ∈ getQuarantineRecords s to froms := by
+  unfold getQuarantineRecords
+  exact List.mem_filterMap.mpr ⟨k, mem_suffixes inv hmem hf hff, kvGet_of_mem_nodup inv.nodup hmem⟩
+
+/-- … and it returns each record once (the snapshot has no duplicates), so the accept loop can
+pay a record only once. -/
+theorem lookup_no_duplicates {s : State} (inv : StoreInv s) (to : Addr) (froms : List Addr) :
+    ((getQuarantineRecords s to froms).map keyOf).Nodup :=
+  (getQuarantineRecords_snapshot inv to froms).nodup
+
+/-- over all histories: the index of every reachable state is complete -/
+theorem index_complete_always (s0 : State) (ops : List Op) (inv : StoreInv s0) {to : Addr} {k : Suffix} {r : Record}
+    (hmem : ((to, k), r) ∈ (run s0 ops).recs) {f : Addr} (hf : f ∈ r.getAllFromAddrs) {froms : List Addr}
+    (hff : f ∈ froms) : r ∈ getQuarantineRecords (run s0 ops) to froms :=
+  index_complete (store_invariant s0 ops inv) hmem hf hff
+
+/-! ### non-vacuity: a concrete history meets every hypothesis used above -/
+
+namespace Demo
+
+def s0 : State :=
+  init "H" ["rcoin"] ["A"] (Ledger.entries "A" [("aaa", 100), ("rcoin", 9)] ++ Ledger.entries "B" [("aaa", 50)])
+
+/-- C opts in; A's send is quarantined; A+B's joint funds are quarantined; B's send tops up nothing of A's;
+C accepts A (single-sender record paid, joint record only partially accepted); C declines B for good. -/
+def ops : List Op :=
+  [.optIn "C", .send "A" "C" [("aaa", 5)], .qadd "C" ["A", "B"] [("aaa", 3)] "B", .send "B" "C" [("aaa", 2)],
+   .accept "C" ["A"] false, .decline "C" ["B"] true]
+
+example : StoreInv s0 := init_inv _ _ _ _
+example : HolderCovers s0 := fun d => by simp [s0, init, outstanding, sumRecs, Ledger.entries, Ledger.bal]
+example : GhostLedger s0 := fun d => by simp [s0, init, outstanding, sumRecs]
+example : ∀ op ∈ ops, op.holderNeverSigns s0.holder = true := by decide
+example : ∀ op ∈ ops, op.holderNotNamed s0.holder = true := by decide
+-- the run really quarantines, releases and keeps a partially accepted multi-sender record
+example : Ledger.bal (run s0 ops).bank "C" "aaa" = 5 := by decide
+example : Ledger.bal (run s0 ops).bank "H" "aaa" = 5 := by decide
+example : outstanding (run s0 ops) "aaa" = 5 := by decide
+example : (run s0 ops).recs.map (fun e => (e.1, e.2.unacc, e.2.acc, e.2.declined))
+    = [(("C", ["A", "B"]), ["B"], ["A"], true), (("C", ["B"]), ["B"], [], true)] := by decide
+example : (run s0 ops).index = [(("C", "A"), [["A", "B"]]), (("C", "B"), [["A", "B"]])] := by decide
+
+/-- state in which C has opted in -/
+def s1 : State := run s0 (ops.take 1)
+-- hypotheses of `not_credited_until_accepted` / `send_delivery`
+example : isQuarantinedAddr s1 "C" = true := by decide
+example : getAutoResponse s1 "C" "A" ≠ .accept := by decide
+example : (exec s1 (.send "A" "C" [("aaa", 5)])).toBool = true := by decide
+-- hypothesis of `autoaccept_direct` (B is not opted in)
+example : quarantines s1 "A" "B" = false := by decide
+example : (exec s1 (.send "A" "B" [("aaa", 5)])).toBool = true := by decide
+-- hypotheses of `settings_and_decline_move_nothing`
+example : (Op.decline "C" ["B"] true).movesNoFunds = true := rfl
+
+/-- state with three records for C -/
+def s4 : State := run s0 (ops.take 4)
+-- hypotheses of the accept theorems: the accept succeeds and really releases one of three records
+example : (exec s4 (.accept "C" ["A"] false)).toBool = true := by decide
+example : expReleased s4.recs "C" ["A"] "aaa" = 5 := by decide
+example : s4.recs.length = 3 := by decide
+-- hypotheses of `index_complete`: a multi-sender record, looked up by its second sender only
+example : (("C", ["A", "B"]), (⟨["A", "B"], [], [("aaa", 3)], false⟩ : Record)) ∈ s4.recs := by decide
+example : (getQuarantineRecords s4 "C" ["B"]).length = 2 := by decide
+
+end Demo
 
 end PvProofs.C07
